@@ -50,12 +50,13 @@ def codec_runs(prefix, suffix="", quick=None, thorough=None, extra_entries=None,
 PROPS["C03"] = {
     "level_text": "Round trip decode(encode(frame)) == frame on the real encoder+decoder pairs of H264, H265, AV1, VP8, VP9, fragmented (MPEG-4 video/LATM), KLV (plus LPCM, simple audio, MPEG-TS via C06 runs): frame contents fully symbolic, unit lengths symbolic 1..P (P 8-16), 1-3 units, payload limit case-split over its whole small range, K=1 (quick) / 2 (thorough) consecutive frames; 'more packets needed' before the last packet and exact equality at it.",
     "level_note": 'Preconditions (valid frames) are written in the harnesses and listed in the evidence (e.g. no start code inside NALUs, VP9 header parsable). Outside: default MTU 1450 itself (only the small-limit regime is explored; thresholds are relative to the limit so every aggregation/fragmentation boundary is crossed), MPEG-4 audio generic, MPEG-1 audio/video, AC-3, M-JPEG (not yet carried by the engine), P/N/K beyond the registered values.',
-    "runs": codec_runs("ZzC03", quick={"*": {"K": 1}, "rtpav1": {"K": 1, "N": 3, "P": 8}}, thorough={"*": {"K": 2}, "rtpav1": {"K": 2, "N": 3, "P": 8}}),
+    "runs": codec_runs("ZzC03", quick={"*": {"K": 1}, "rtpav1": {"K": 1, "N": 3, "P": 8}},
+                       thorough={"*": {"K": 2, "P": 7, "MHI": 7}, "rtpav1": {"K": 1, "N": 3, "P": 10}, "rtpvp9": {"K": 2, "P": 14, "MHI": 14}, "rtpklv": {"K": 2, "P": 22, "MHI": 12}}),
 }
 PROPS["C06"] = {
     "level_text": 'For every encoder listed under C03 plus LPCM, simple audio, MPEG-TS: payload <= PayloadMaxSize (limit symbolic over its small range), sequence numbers +1 modulo 2^16 from a symbolic initial value across K calls (so wraps inside a fragmented frame are covered), SSRC/payload type/version, marker placement, inputs never written (engine write monitor + native copy compare).',
     "level_note": 'Same bounds and exclusions as C03; smallest workable limits are per codec (H264 3, H265 4, AV1 3, VP8 2, VP9 12) and stated as MLO in the bounds.',
-    "runs": codec_runs("ZzC06", quick={"*": {"K": 1}}, thorough={"*": {"K": 2}}),
+    "runs": codec_runs("ZzC06", quick={"*": {"K": 1}}, thorough={"*": {"K": 2, "P": 7, "MHI": 7}, "rtpvp9": {"K": 2, "P": 14, "MHI": 14}}),
 }
 _M4A = [
     R("mpeg4audio-%d-%d-%d" % cfg, "pkg/format/rtpmpeg4audio", "pkg/format/rtpmpeg4audio", ["ZzC03C06MPEG4Audio"],
